@@ -665,6 +665,24 @@ func wsText(payload []byte) []byte {
 	return wire.WSClientFrame(true, wire.OpText, payload, [4]byte{0x11, 0x22, 0x33, 0x44})
 }
 
+// wsFrag sends one text message as k frames (text, continuation…, the last with FIN), the
+// payload cut into k nearly equal parts (parts may be empty when the payload is short).
+func wsFrag(payload []byte, k int) []byte {
+	if k <= 1 {
+		return wsText(payload)
+	}
+	var out []byte
+	for i := 0; i < k; i++ {
+		lo, hi := len(payload)*i/k, len(payload)*(i+1)/k
+		op := byte(wire.OpCont)
+		if i == 0 {
+			op = wire.OpText
+		}
+		out = append(out, wire.WSClientFrame(i == k-1, op, payload[lo:hi], [4]byte{0x51, 0x62, byte(i), 0x44})...)
+	}
+	return out
+}
+
 func wsClose(code uint16, reason string) []byte {
 	return wire.WSClientFrame(true, wire.OpClose, wire.WSCloseBody(code, reason), [4]byte{9, 8, 7, 6})
 }
